@@ -8,20 +8,29 @@ class C15(Spec):
     required_theorems = (
         "C15.err_no_change", "C15.nonneg", "C15.no_overflow", "C15.no_overflow_step", "C15.supply_delta",
         "C15.supply_delta_step", "C15.deficit_delta", "C15.alias_safe", "C15.alias_rejected",
-        "C15.negative_grant_rejected", "C15.case_insensitive", "C15.case_insensitive_write",
+        "C15.negative_grant_rejected", "C15.exec_equation_partial", "C15.case_insensitive_partial",
+        "C15.case_insensitive_exec_full_false", "C15.case_insensitive_write",
         "C15.normEth_idempotent", "C15.normEth_case_variants",
         "C15.old_guard_alias_mints", "C15.old_genesis_accepts_negative_grant", "C15.old_execDeposit_wraps",
     )
-    partial = ()
-    refuted = ()
+    partial = (
+        "C15.case_insensitive_partial: the exec-address argument is one spelling (execAccountKey does not normalise execaddr); account spellings are arbitrary",
+        "C15.exec_equation_partial: balance(e) = sum of sub-accounts for op lists that name e by one spelling, do not touch e's own record by plain Transfer/Mint/Burn/Genesis/Issue, do not use raw ExecDeposit/ExecWithdraw on e, and in which no step panicked",
+    )
+    refuted = (
+        "C15.case_insensitive_exec_full_false: toexec a E 400 then the sub-account read through another spelling E' of the same exec address is empty (main record shared)",
+    )
     level_text = (
         "Lean theorems about a model of account.DB with explicit int64 wrap-around, for every normalisation function, "
-        "every configuration and every operation list, with no side hypotheses: an error changes nothing; every balance "
+        "every configuration and every operation list: an error changes nothing; every balance "
         "and frozen amount of the main ledger and of every exec sub-ledger stays in [0, MaxTokenBalance] (never negative, "
         "no int64 wrap); the supply after a run equals the sum of the minted/burned/issued/granted amounts; in every "
         "reachable state a successful operation moves the exec equation balance(exec) - sum(sub-accounts) by an explicit "
         "per-operation amount (0 for the preserving operations) for arbitrary address spellings; two spellings of one "
-        "account are rejected by the exec-internal transfers; equal storage keys read and write one record; the concrete "
+        "account are rejected by the exec-internal transfers; the exec equation holds as an invariant for op lists that use one "
+        "spelling of the exec address (hypotheses listed under partial); equal storage keys of the ACCOUNT argument read and "
+        "write one record, while the exec-address argument is refuted on a witness that replays on the real code (known "
+        "finding: execAccountKey keeps execaddr as spelled); the concrete "
         "hex lower-casing satisfies the normalisation laws. The behaviour before the repo fixes 3bc3d2b / b0959e4 (alias "
         "mints balance, negative genesis grant, sub-ledger int64 wrap) is kept as regression theorems about separate "
         "...Old definitions. The model is tied to account/*.go by a differential run (error enum + every involved record "
